@@ -129,6 +129,22 @@ func build(r *rand.Rand, kind string, cfg servlib.Cfg, eof bool, n int) desc {
 		d.Sc.HjIn = -1
 		d.Sc.EndEOF = true
 		d.Sc.Cfg.ReadTimeoutMs = 0
+	case "gone": // Shutdown closes the idle connection while the first byte of the last request is being read
+		for i := 1; i <= n; i++ {
+			b := get.Bytes(i)
+			d.Sc.Steps = append(d.Sc.Steps, servlib.Step{Chunk: b, Wait: true})
+			d.Lens = append(d.Lens, len(b))
+		}
+		d.Sc.GoneAt = n
+		d.Sc.Cfg.ServeConn = false // Shutdown only acts on a server with a listener
+		d.Sc.Cfg.ReduceMem = false // every request is one Read: the read count is the request number
+		d.Sc.Cfg.MaxReqs = 0
+		d.Sc.Cfg.DisableKeepalive = false
+		d.Sc.EndEOF = true
+		d.Sc.Cfg.ReadTimeoutMs = 0
+		if n < 2 {
+			d.Sc.GoneAt = 0 // nothing is idle before the first request
+		}
 	case "rejconc", "rejip":
 		d.Sc.Reject = map[string]string{"rejconc": "conc", "rejip": "perip"}[kind]
 		b := get.Bytes(1)
@@ -139,7 +155,7 @@ func build(r *rand.Rand, kind string, cfg servlib.Cfg, eof bool, n int) desc {
 	return d
 }
 
-var kinds = []string{"nothing", "crlf", "partial", "garbage", "sep", "sepclose", "pipe", "split", "post", "hijack", "hijacknr", "rejconc", "rejip"}
+var kinds = []string{"gone", "nothing", "crlf", "partial", "garbage", "sep", "sepclose", "pipe", "split", "post", "hijack", "hijacknr", "rejconc", "rejip"}
 
 func corpus() []desc {
 	r := rand.New(rand.NewSource(7))
@@ -204,7 +220,11 @@ func run(d desc) hlib.Case {
 	}
 	// the chunks the server's reads actually returned (what it never read it never saw)
 	chunks := res.Reads
-	coq := hlib.App("C14", d.Sc.Cfg.Entry(), ad, d.Sc.Cfg.Coq(), servlib.OpsCoq(d.Sc.Ops), hlib.HexList(chunks),
+	gone := hlib.None()
+	if d.Sc.GoneAt > 0 {
+		gone = hlib.Some(hlib.N(uint64(d.Sc.GoneAt)))
+	}
+	coq := hlib.App("C14", d.Sc.Cfg.Entry(), ad, d.Sc.Cfg.Coq(), servlib.OpsCoq(d.Sc.Ops), gone, hlib.HexList(chunks),
 		servlib.TailCoq(d.Sc.EndEOF), hlib.List(states), hlib.List(actives))
 	size := 0
 	for _, c := range chunks {
